@@ -427,7 +427,11 @@ class Wtp:
         self.db_conn.commit()
         # `create_db()` restores whatever file has the backup name: write the
         # copy under a temporary name and rename it once it is complete
-        temp_path = self.backup_db_path.with_suffix(".tmp")
+        # (the suffix is appended, not replaced: for a database called
+        # "x.tmp" the backup name itself ends in ".tmp")
+        temp_path = self.backup_db_path.with_name(
+            self.backup_db_path.name + ".tmp"
+        )
         temp_path.unlink(True)
         backup_conn = sqlite3.connect(temp_path)
         with backup_conn:
